@@ -540,7 +540,12 @@ impl<'a> Interp<'a> {
             }
             k::MWriteStr => call(|| {
                 use std::fmt::Write;
-                b.write_str(std::str::from_utf8(dref).unwrap()).unwrap()
+                let st = std::str::from_utf8(dref).unwrap();
+                if op.b % 2 == 1 {
+                    write!(b, "{}", st).unwrap()
+                } else {
+                    b.write_str(st).unwrap()
+                }
             }),
             k::MExtendIter => match op.b % 4 {
                 0 => call(|| b.extend(dref.iter().copied())),
